@@ -2,6 +2,7 @@
 import random
 
 from . import num
+from . import states
 from .common import *
 
 
@@ -10,7 +11,17 @@ def gen_cases(rng, tier):
     n = 70 if tier == "quick" else 1500
     for i in range(n):
         quant = 8 if i % 4 else None      # every fourth case: full-precision model values
-        c = gen_problem(rng, quant=quant, eps=(None if i % 3 else rng.choice([1e-9, -1e-9, 1e-12])))
+        # thresholds: default, tiny user values of both signs, and LARGE user values (still below every singular value:
+        # nothing may be truncated, whatever the scale of the matrix)
+        eps = None if i % 3 else rng.choice([1e-9, -1e-9, 1e-12, 1e-3, -1e-2, 0.03])
+        c = gen_problem(rng, quant=quant, eps=eps)
+        if eps is not None and abs(eps) >= 1e-3:
+            # scale the problem up through the weights so that sigma_max >> 1 while the threshold stays absolute
+            N = c["meta"]["N"]
+            c["build"] = [o for o in c["build"] if o[0] != "weights"]
+            k = rng.choice([32.0, 256.0, 1024.0])
+            c["build"].insert(1, ["weights", [hx(k * rng.choice([1.0, 0.5, 2.0]), c["scalar"]) for _ in range(N)]])
+            c["meta"]["weights"] = "scaled"
         m = c["meta"]
         lo, hi = m["range"]
         sc = c["scalar"]
@@ -50,6 +61,7 @@ def main(tier, seed, replay=None):
                     terms.append(t)
                     idx.append((c, r, k))
             k += 1
+    rterms, rhist = states.run_rankdef(run, "C01", binp, rng, 24 if tier == "quick" else 500, (3, 8))
     codes = coq_eval("C01", num.HEADER, terms, per_file_timeout=1800)
     hist = {}
     nskip = 0
@@ -63,13 +75,17 @@ def main(tier, seed, replay=None):
                           {"case": c, "step": k, "observe": r["steps"][k]["v"], "tables": r["steps"][k + 1]["v"], "coq_term": t,
                            "meaning": "the acceptance predicate Model/Numeric.check_state is the property evaluated on the implementation's output"})
     run.coverage.update({
-        "evaluations": len(terms), "distinct_nontrivial": len(terms) - nskip,
+        "evaluations": len(terms) + len(rterms), "distinct_nontrivial": len(terms) - nskip + rhist.get(0, 0),
         "rule": "random problems over 8 model families (hand-written / builder-made, 1-3 right-hand sides, weights none/unit/positive/"
                 "mixed with zeros and negatives, user thresholds of both signs, the four constructors, f32/f64); coefficients and residuals "
                 "observed at construction and after two caller-driven updates; each observed state is checked in exact rational arithmetic "
-                "against the certified least-squares solution with the tolerance rule of Model/Numeric.v; non-trivial = compared "
+                "against the certified least-squares solution with the tolerance rule of Model/Numeric.v (thresholds: default, tiny and "
+                "LARGE user values with the problem scaled up through the weights — as long as the threshold is below every singular "
+                "value nothing may be truncated); exactly rank-deficient bases (duplicated, dependent, vanishing columns) with a user "
+                "threshold: minimum-norm minimiser from a checked full-rank factorisation, finiteness; non-trivial = compared "
                 "(not skipped as ill-conditioned)",
-        "code_histogram": {str(k): v for k, v in hist.items()}, "skipped_ill_conditioned": nskip})
+        "code_histogram": {str(k): v for k, v in hist.items()}, "skipped_ill_conditioned": nskip,
+        "rank_deficient_states": len(rterms), "rank_deficient_code_histogram": {str(k): v for k, v in rhist.items()}})
     run.samples = [{"ctor": c["ctor"], "scalar": c["scalar"], "meta": c["meta"], "step": k} for c, r, k in idx[:3]]
     run.assumptions = ["rounding error of nalgebra's SVD solve stays below 64 u kappa2 sqrt(N M) (engineering margin, see DESIGN.md §4.1)"]
     return run.finish()
